@@ -141,6 +141,53 @@ Theorem C18_payload :
 Proof. exact (@standalone_payload). Qed.
 Print Assumptions C18_payload.
 
+(** the same against the enum type AS NAMED by the generator ([resolve_type_path id], read in
+    the generated module one level deeper than the fields): for ANY item-eligible (not
+    substituted, namespaced, not Cow) enum entry - generic or not - the generated enum encodes
+    the variant as the index byte followed by what the standalone struct (built from the
+    variant's field list with no parent parameters) encodes, and decodes accordingly *)
+Theorem C18_payload_named :
+  forall (pv bv ov : Type) (P : prims pv bv ov) r s teq m,
+    skeleton_consistent r s -> root_fresh s -> generate r s teq = Ok m ->
+    forall id X t vs v k u name docs n,
+      resolve r id = Some X -> item_eligible s X = true ->
+      path_ident (t_path X) <> Some "Cow"%string ->
+      resolve_type_path r s id = Ok t ->
+      t_def X = TDVariant vs -> In v vs -> NoDup (map v_index vs) ->
+      create_composite_ir_kind r s (v_fields v) [] [] = Ok (k, u) ->
+      let enum_sh := shape_rust m s (S n) t in
+      let struct_sh := item_shape m s n (upcast_composite s (mk_ci name k docs)) [] in
+      (forall vals,
+          encode P enum_sh (VEnum (v_index v) vals) =
+          match encode P struct_sh (VStruct vals) with
+          | Some e => Some (v_index v :: e)
+          | None => None
+          end) /\
+      (forall b,
+          decode P enum_sh (v_index v :: b) =
+          match decode P struct_sh b with
+          | Some (VStruct vals, rest) => Some (VEnum (v_index v) vals, rest)
+          | _ => None
+          end).
+Proof. exact (@standalone_payload_named). Qed.
+Print Assumptions C18_payload_named.
+
+(** struct entries: the standalone struct built from the field list of a parameter-free
+    struct has the decoder and the encoder of the struct's own item *)
+Theorem C18_struct_codec :
+  forall (pv bv ov : Type) (P : prims pv bv ov) r s teq m,
+    skeleton_consistent r s -> root_fresh s -> generate r s teq = Ok m ->
+    forall t flat ir fs k u name docs n,
+      params_from_scale_info (t_params t) = [] ->
+      create_type_ir r s t flat = Ok (Some ir) ->
+      t_def t = TDComposite fs ->
+      create_composite_ir_kind r s fs [] [] = Ok (k, u) ->
+      let struct_sh := item_shape m s n (upcast_composite s (mk_ci name k docs)) [] in
+      decode P (item_shape m s n ir []) = decode P struct_sh /\
+      encode P (item_shape m s n ir []) = encode P struct_sh.
+Proof. exact (@standalone_struct_codec). Qed.
+Print Assumptions C18_struct_codec.
+
 (** real bytes (finite computation, concrete primitive codecs): the standalone struct built
     from the fields of variant C (index 5) of the example enum [types::a::E] encodes
     { x: 70000 (compact), y: true } to C2 45 04 00 01, the enum item encodes the variant to
